@@ -109,5 +109,12 @@ def run(tier, seed):
     missing = [e for e in need if not chk.events.get(e)]
     if missing:
         chk.machinery_errors.append("vacuity: spec steps never taken: %s" % missing)
+    # random API sessions (loads, registrations, asserts through both routes, queries advanced step by
+    # step and abandoned between updates, clears) over unusual term shapes; decided by the machine
+    from .. import gen as _gen
+    _rnd = random.Random(seed * 7919 + 14)
+    _ss = [_gen.api_session(_rnd, engines=1, length=_rnd.randint(6, 14)) for _ in range(300 if tier == "quick" else 5000)]
+    for _i in range(0, len(_ss), 2500):
+        chk.machine_family("api-sessions-%d" % (_i // 2500), _ss[_i:_i + 2500], features=features)
     chk.assumptions = ["termination is decided by a call budget of 1000 x (spec micro steps) + 100000 Python function starts/resumes"]
     return chk.finish()
